@@ -10,6 +10,7 @@ package llrp
 //   dec <cid> <hex>   -> ok <tree> | err | panic
 //   rt <tree>         -> ok <hex> <tree-after-decode> <hex-after-reencode> | err | panic
 //   json <tree>       -> ok <tree-after-json-roundtrip> | err | panic
+//   tojson <tree>     -> ok <hex of the text json.Marshal produces, verbatim> | err | panic
 //   selftest          -> ok <n containers> | bad <what cannot be instantiated / does not fit the table>
 // Every request runs under a watchdog ($VERIF_CODEC_WATCHDOG_MS, default 3000): on expiry the answer is
 // `hang`, all remaining requests are answered `skipped`, and the process exits (status 3).
@@ -907,6 +908,16 @@ func (r *vreg) handle(line string) (ans string) {
 			return fail(err)
 		}
 		return "ok " + tree
+	case "tojson":
+		_, p, err := r.fromTree(rest)
+		if err != nil {
+			return fail(err)
+		}
+		js, err := json.Marshal(p.Interface())
+		if err != nil {
+			return "err"
+		}
+		return "ok " + hex.EncodeToString(js)
 	}
 	return "bad unknown request " + cmd
 }
